@@ -43,6 +43,7 @@ func genC04(r *sim.Rand, tier string) *sim.Program {
 	ccm := r.Chance(2, 5)
 	p.SetCB("key", r.Bytes(16))
 	p.SetC("path", r.Weighted(4, 1))
+	p.SetC("conv", r.Weighted(2, 1))
 	if ccm {
 		p.SetC("ccm", 1)
 		p.SetC("nonce", r.Range(7, 13))
@@ -154,6 +155,15 @@ func execC04(t *testing.T, p *sim.Program, c *sim.Ctx) {
 	mb, _ := sm4m.NewCipher(key)
 	var a cipher.AEAD
 	switch {
+	case ccm && ns == 12 && ts == 16 && p.C("conv")&1 == 1:
+		a, err = gcipher.NewCCM(lb) // the convenience constructors must select the documented defaults
+		c.Hit("probe:ccm-convenience-constructor")
+	case ccm && ns == 12 && p.C("conv")&1 == 1:
+		a, err = gcipher.NewCCMWithTagSize(lb, ts)
+		c.Hit("probe:ccm-convenience-constructor")
+	case ccm && ts == 16 && p.C("conv")&1 == 1:
+		a, err = gcipher.NewCCMWithNonceSize(lb, ns)
+		c.Hit("probe:ccm-convenience-constructor")
 	case ccm:
 		a, err = gcipher.NewCCMWithNonceAndTagSize(lb, ns, ts)
 	case ns != 12:
@@ -171,7 +181,18 @@ func execC04(t *testing.T, p *sim.Program, c *sim.Ctx) {
 		c.Fail("parameters", -1, "setup", "NonceSize/Overhead = %d/%d, requested %d/%d", a.NonceSize(), a.Overhead(), ns, ts)
 		return
 	}
-	c.Abs(ccm, ns, ts, path)
+	if ml, ok := a.(interface{ MaxLength() int }); ok && ccm {
+		// RFC 3610: the message length is carried in L = 15 - nonce size octets
+		want := uint64(1<<63 - 1 - uint64(ts))
+		if l := 15 - ns; l < 8 && uint64(1)<<(8*uint(l))-1 < want {
+			want = uint64(1)<<(8*uint(l)) - 1
+		}
+		if uint64(ml.MaxLength()) != want {
+			c.Fail("parameters", -1, "setup", "CCM MaxLength() = %d for a %d-octet nonce, RFC 3610 gives %d", ml.MaxLength(), ns, want)
+			return
+		}
+	}
+	c.Abs(ccm, ns, ts, path, p.C("conv")&1)
 	mseal := func(nonce, pt, aad []byte) []byte {
 		if ccm {
 			return aead.CCMSeal(mb, nonce, pt, aad, ts)
